@@ -417,7 +417,8 @@ struct timespec* sentTime) {
     }
     clockGettime(&m_lastSynReceiveTime);
     m_crc = 0;  // not reset by setState() when already in ready state, e.g. after a single escape symbol
-    return setState(bs_ready, m_state == bs_skip || m_remainLockCount > 0 ? result : RESULT_ERR_SYN);
+    return setState(bs_ready, m_currentRequest == nullptr && (m_state == bs_skip || m_remainLockCount > 0)
+      ? result : RESULT_ERR_SYN);
   }
 
   if (sending && m_state != bs_ready) {  // check received symbol for equality if not in arbitration
